@@ -60,6 +60,7 @@ PoolSets ==
                                                  Rel1("following-sibling", NTAny), Rel1("ancestor", NTName("a")), Bin("!=", SelfDot, Lit("")),
                                                  Bin("=", Call("local-name", <<>>), Lit("a"))})>>
       [] Family = "C03a"  -> <<PoolC03a(TestsAB, 3)>>
+      [] Family = "C03kinds" -> <<PoolC03a({NTNode, NTText, NTComment, NTAny}, 3)>>   \* on documents with text and comment siblings
       [] Family = "C03b"  -> <<PoolC03b(TestsA, 2, {Rel1("child", NTAny), Call("not", <<Rel1("child", NTAny)>>),
                                                     Bin("=", SelfDot, Lit("1")), Rel1("following-sibling", NTName("a")),
                                                     Rel1("ancestor", NTName("a"))})>>
